@@ -49,6 +49,11 @@ theorem seqRun_is_expandRest (bs100k : Nat) (rest : List UInt8) (n W totalIn tot
     rw [hs] at h1
     exact h1
 
+/-- Non-vacuity: on the one-block file `fileA` ("a" compressed) the sequential reference of the
+    instance succeeds with the one record `(80, 0)`, and `expandRest` answers `ok "a"`. -/
+example : seqRun cfgA = ([(80, 0)], true) ∧ expandRest 9 (fileA.drop 4) = .ok [97] := by
+  decide +kernel
+
 /-- The same for the failure side: `expandRest` rejects iff `seqRun` of the instance fails. -/
 theorem seqRun_fails_iff (bs100k : Nat) (rest : List UInt8) (n W totalIn totalOut : Nat)
     (ultra : Bool) (cand : List Nat) :
